@@ -10,7 +10,7 @@ from . import common
 
 NAME = "U-optable"
 TOOL = "verus"
-PROPS = ["C01", "C15", "C16"]
+PROPS = ["C01", "C15", "C16", "C10"]
 RLIMIT = 100
 TRUSTED = ["verus 0.2026.09.13 + z3", "the grammar file is parsed by this unit for its token definitions (`name = { \"text\" }`) and its `infix` / `infix_ex` alternatives; that pest delivers exactly these rules to map_infix is pest's semantics",
            "the table C gives: token text -> operation (spec function c_op, written from the C operators)"]
@@ -37,7 +37,7 @@ def grammar(repo):
     text = open(os.path.join(repo, "src/cc6502.pest")).read()
     toks = dict(re.findall(r'^\s*(\w+)\s*=\s*\{\s*"([^"]+)"\s*\}', text, re.M))
     lists = {}
-    for name in ("infix", "infix_ex"):
+    for name in ("infix", "infix_ex", "calc_infix"):
         m = re.search(r"^\s*%s\s*=\s*_\{([^}]*)\}" % name, text, re.M)
         if not m:
             raise Undecided("src/cc6502.pest: rule %s not found" % name)
@@ -59,6 +59,7 @@ def build(repo):
     opc.sub(r"pub\(crate\) enum", "pub enum", "R2-pub")
     cuts = [opc]
     rules = sorted(set(lists["infix"]) | set(lists["infix_ex"]))
+    calc_rules = [r for r in lists["calc_infix"] if r not in rules]
     for r in rules:
         if r not in toks:
             raise Undecided("src/cc6502.pest: infix alternative %s has no token definition of the form `%s = { \"..\" }`" % (r, r))
@@ -88,30 +89,33 @@ pub fn table_%(fname)s(rule: Rule) -> (op: Operation)
 """ % {"fname": fname, "gram": gram, "short": "statements" if fname == "parse_expr_ex" else "initialisers", "body": c.text})
     # Pratt tables
     regs = {}
-    for tname in ("pratt", "pratt_init_value"):
+    for tname in ("pratt", "pratt_init_value", "calculator"):
         k = re.compile(r"let %s = PrattParser::new\(\)" % tname).search(m)
         if not k:
             raise Undecided("`let %s = PrattParser::new()` not found" % tname)
         e = m.index(";", k.end())
         regs[tname] = sorted(set(re.findall(r"Op::infix\(Rule::(\w+),", m[k.end():e])))
-    enum = "#[derive(Copy, Clone, PartialEq, Eq, Structural)]\npub enum Rule { %s, other }\n" % ", ".join(rules)
+    enum = "#[derive(Copy, Clone, PartialEq, Eq, Structural)]\npub enum Rule { %s, other }\n" % ", ".join(rules + calc_rules)
     def setfn(name, members):
-        return "pub open spec fn %s(r: Rule) -> bool { %s }\n" % (name, " || ".join("r == Rule::%s" % x for x in members if x in rules) or "false")
+        return "pub open spec fn %s(r: Rule) -> bool { %s }\n" % (name, " || ".join("r == Rule::%s" % x for x in members if x in rules + calc_rules) or "false")
     specs = enum
     cmap = dict(C_OPS)
     for r in rules:
         if toks[r] not in cmap:
             raise Undecided("src/cc6502.pest: infix token %r (rule %s) is not a C operator this unit knows" % (toks[r], r))
     # the operation C gives each rule's token: the grammar's token text (read from src/cc6502.pest) looked up in the C table above, written out per rule
-    specs += "pub open spec fn c_op_of(r: Rule) -> Operation { match r {\n%s\n    Rule::other => Operation::Comma } }\n" % "\n".join('    Rule::%s => Operation::%s,      // %s' % (r, cmap[toks[r]], toks[r]) for r in rules)
+    specs += "pub open spec fn c_op_of(r: Rule) -> Operation { match r {\n%s\n%s    Rule::other => Operation::Comma } }\n" % ("\n".join('    Rule::%s => Operation::%s,      // %s' % (r, cmap[toks[r]], toks[r]) for r in rules), "".join("    Rule::%s => Operation::Comma,      // (constant expressions only)\n" % r for r in calc_rules))
     specs += setfn("in_infix", lists["infix"]) + setfn("in_infix_ex", lists["infix_ex"])
     specs += setfn("registered_pratt", regs["pratt"]) + setfn("registered_pratt_init_value", regs["pratt_init_value"])
+    specs += setfn("in_calc_infix", lists["calc_infix"]) + setfn("registered_calculator", regs["calculator"])
     specs += "#[verifier::external_body] pub fn unreached() -> Operation requires false { unimplemented!() }\n"
     cover = """
 // every infix token the grammar delivers to a parser is registered in that parser's Pratt table (pest panics on an unregistered one)
 pub proof fn pratt_covers_statements(r: Rule) requires in_%(g1)s(r) ensures registered_pratt(r) //@ C16,C01:pratt-table-registers-every-infix-token-statements
 {}
 pub proof fn pratt_covers_initialisers(r: Rule) requires in_%(g2)s(r) ensures registered_pratt_init_value(r) //@ C16,C01:pratt-table-registers-every-infix-token-initialisers
+{}
+pub proof fn pratt_covers_calculator(r: Rule) requires in_calc_infix(r) ensures registered_calculator(r) //@ C16,C10:pratt-table-registers-every-infix-token-constant-expressions
 {}
 """ % {"g1": uses["expr"], "g2": uses["expr_init_value"]}
     u.text[None] = common.PRELUDE + common.header_comment(NAME, cuts) + "verus! {\n" + opc.text + "\n" + specs + "\n".join(fns) + cover + common.CANARY + "\n} // verus!\n"
